@@ -4,13 +4,13 @@ CLAIMS = {
  'C01': {
   'technique': 'Coq proofs over an arbitrary commutative ring that every grad-sampler formula is the adjoint of its layer (affine in its parameters) for one sample alone, all extents; formulas tied to the sources by generated pins and exact integer correspondence; single-sample autograd oracle over architectures x modes',
   'text': ('PARTIAL. Proved for all extents, inputs, cotangents and perturbations, over any commutative ring: the formulas used by the registered samplers of nn.Linear / RNNLinear (weight, bias, any input rank), '
-           'nn.Conv1d/2d/3d as one gather layer (arbitrary tap-location and channel maps: every stride, padding, dilation, groups, rank), nn.Embedding (with padding_idx: zero padding row) and the affine part of GroupNorm / LayerNorm / InstanceNorm satisfy <gs, delta> = <g, layer(theta+delta, x) - layer(theta, x)> '
+           'nn.Conv1d/2d/3d as one gather layer (arbitrary tap-location and channel maps: every stride, padding, dilation, groups, rank), nn.Embedding (with padding_idx: zero padding row), nn.EmbeddingBag in modes sum / mean (padding entries excluded) and the affine part of GroupNorm / LayerNorm / InstanceNorm satisfy <gs, delta> = <g, layer(theta+delta, x) - layer(theta, x)> '
            'for the sample alone, and this identity determines the gradient uniquely; several uses of a layer in one forward (tied weights, recurrent steps) add up; multiplying by the batch '
            'length undoes mean reduction; per-sample gradients sum to the batch gradient. Which formula each registered sampler computes is read off the einsum strings / expressions of the '
-           'sources (generated table, pins of the hook arithmetic), the hook bookkeeping (forward counter, prefix-add accumulation, promotion) is a proved state machine (uses_then_promote), and the Linear / RNNLinear / Embedding / Conv1d samplers are run on small-integer tensors against the formulas evaluated on Z in Coq '
+           'sources (generated table, pins of the hook arithmetic), the hook bookkeeping (forward counter, prefix-add accumulation, promotion) is a proved state machine (uses_then_promote), and the Linear / RNNLinear / Embedding / EmbeddingBag / Conv1d samplers are run on small-integer tensors against the formulas evaluated on Z in Coq '
            '(equality). The property itself is tested on composed architectures (mlp rank 2-4, batch-second, conv1d-3d with stride / padding / same / dilation / groups, norms, Embedding with '
-           'padding, EmbeddingBag with repeated indices, DP recurrent layers padded / packed, DP attention, custom layer, tied + frozen) x hooks / functorch / ew x mean / sum x batch 0-4 '
-           'with a generic cotangent, against autograd on each sample alone. Not proved: autograd, functorch, ExpandedWeights, unfold, F.*_norm. Two repaired defects, two recorded findings '
+           'padding, EmbeddingBag (sum / mean / max, repeated indices, padding index), DP recurrent layers padded / packed, DP attention, custom layer, tied + frozen) x hooks / functorch / ew x mean / sum x batch 0-4 '
+           'with a generic cotangent, against autograd on each sample alone. Not proved: autograd, functorch, ExpandedWeights, unfold, F.*_norm, EmbeddingBag mode max (piecewise linear; oracle only). Four repaired defects, two recorded findings '
            '(packed-unsorted recurrent row order; torch ExpandedWeights padding row).'),
  },
  'C14': {
